@@ -1,7 +1,8 @@
 #!/bin/sh
 # usage: tools/mutants.sh [PROP...]  - applies each /verif/mutants/<PROP>-*.patch to /repo in turn,
 # runs the quick check, expects exit 1 (VIOLATION). The tree is restored after each.
-# VERIF_REPO=<scratch worktree> keeps /repo untouched; WORKERS=n limits the engine's workers.
+# VERIF_REPO=<scratch worktree> keeps /repo untouched; WORKERS=n limits the engine's workers;
+# FAILFAST=1 stops each run at its first violation (much faster; the detecting harness is still reported).
 cd "$(dirname "$0")/.."
 R=${VERIF_REPO:-/repo}
 props="$*"
@@ -10,7 +11,7 @@ for p in $props; do
   for m in mutants/$p-*.patch; do
     [ -f "$m" ] || continue
     if ! git -C $R apply "$PWD/$m" 2>/dev/null; then echo "$m: DOES-NOT-APPLY"; continue; fi
-    out=$(timeout 1500 ./bin/vcheck run --repo $R ${WORKERS:+--workers $WORKERS} --prop $p --tier ${TIER:-quick} --no-evidence 2>&1); rc=$?
+    out=$(timeout 1500 ./bin/vcheck run --repo $R ${WORKERS:+--workers $WORKERS} --prop $p --tier ${TIER:-quick} --no-evidence ${FAILFAST:+--fail-fast} 2>&1); rc=$?
     git -C $R checkout -- .
     v=$(echo "$out" | grep -c '^VIOLATION')
     by=$(echo "$out" | grep '^VIOLATION' | sed 's#.*replay/[A-Z0-9]*-##; s#\.json##' | sort -u | head -3 | tr '\n' ' ')
